@@ -528,6 +528,7 @@ class Interp:
         self.log_calls = False
         self.merge_pure = True
         self.in_merge = False
+        self.exact_floats = False  # True: float literals are exact rationals (reference evaluation for float.exactness)
 
     # ------------------------------------------------------------------ utilities
     def exc(self, cls_name, *args):
@@ -1544,6 +1545,8 @@ class Interp:
         v = node.value
         if isinstance(v, bytes):
             return BytesVal.of(v)
+        if isinstance(v, float) and self.exact_floats:
+            return fractions.Fraction(str(v))
         return v
 
     def e_Name(self, node, env):
